@@ -468,5 +468,9 @@ def check(model, rep):
     check_store(model, rep, sx3, tables)
     check_params(model, rep, sx)
     check_minimum_teeth(model, rep)
+    # "helix angle ... above the worm limit": the limit is the table row of the gear's pressure angle - the table, the lookup by
+    # pressure angle (tolerant, in any unit: no converted raw number as key) are C09's worm-table rules, re-read here
+    from checks.c09 import check_worm_table
+    check_worm_table(model, rep, R='C19.params.worm-limit')
     check_boundaries(model, rep, sx)
     rep.assume('unit factors are positive (C05.table)')
